@@ -22,12 +22,14 @@ type c16Req struct {
 	GapMs    int    `json:"gap_before_ms"`
 	Hijack   bool   `json:"hijack_before_timeout"`
 	NoResp   bool   `json:"hijack_no_response"`
+	Conn     string `json:"connection,omitempty"` // "" | close (Connection: close) | http10 (HTTP/1.0 without keep-alive): the response ends the connection
 }
 
 type c16Plan struct {
 	TimeoutMs   int        `json:"timeout_ms"`
 	Code        int        `json:"code"` // 0: TimeoutHandler (408)
 	Concurrency int        `json:"concurrency"`
+	NoKeepalive bool       `json:"disable_keepalive,omitempty"`
 	Conns       [][]c16Req `json:"conns"`
 }
 
@@ -35,6 +37,7 @@ func init() { scenarios["C16"] = scenC16 }
 
 func scenC16(e *Env) func() {
 	p := &c16Plan{TimeoutMs: Pick(e, 1, 10, 100, 1000), Code: Pick(e, 0, 0, 503, 504), Concurrency: Pick(e, 1, 2, 3, 8)}
+	p.NoKeepalive = e.Chance(12)
 	nconn := e.Range(1, 3)
 	t := p.TimeoutMs
 	for ci := 0; ci < nconn; ci++ {
@@ -50,6 +53,7 @@ func scenC16(e *Env) func() {
 			// a handler certain to time out asks for the connection first
 			r.Hijack = r.SleepA >= 5*t && e.Chance(40)
 			r.NoResp = e.Chance(50)
+			r.Conn = Pick(e, "", "", "", "close", "http10")
 			rs = append(rs, r)
 		}
 		p.Conns = append(p.Conns, rs)
@@ -116,7 +120,7 @@ func c16Run(e *Env, p *c16Plan) {
 	} else {
 		wrapped = fasthttp.TimeoutWithCodeHandler(work, timeout, msg, p.Code)
 	}
-	s := &fasthttp.Server{Concurrency: p.Concurrency, IdleTimeout: 5 * time.Minute}
+	s := &fasthttp.Server{Concurrency: p.Concurrency, IdleTimeout: 5 * time.Minute, DisableKeepalive: p.NoKeepalive}
 	k := NewServerKit(e, s)
 	k.Handle = func(ctx *fasthttp.RequestCtx, inv *Inv) {
 		if kind := string(ctx.QueryArgs().Peek("kind")); kind != "wrapped" {
@@ -163,10 +167,26 @@ func c16Run(e *Env, p *c16Plan) {
 			if err != nil {
 				return
 			}
-			defer sc.C.Close()
+			defer func() { sc.C.Close() }()
+			reconnect := false
 			for _, r := range p.Conns[ci] {
 				time.Sleep(time.Duration(r.GapMs) * time.Millisecond)
-				req := fmt.Sprintf("GET /t?id=%s&kind=%s HTTP/1.1\r\nHost: x\r\n\r\n", r.ID, r.Kind)
+				if reconnect {
+					// the previous response ended the connection: go on over a new one
+					sc.C.Close()
+					if sc, err = k.NewSeqClient(fmt.Sprintf("10.0.16.%d", ci+1), simnet.Faults{}); err != nil {
+						return
+					}
+					reconnect = false
+				}
+				proto, extra := "HTTP/1.1", ""
+				switch r.Conn {
+				case "close":
+					extra = "Connection: close\r\n"
+				case "http10":
+					proto = "HTTP/1.0"
+				}
+				req := fmt.Sprintf("GET /t?id=%s&kind=%s %s\r\nHost: x\r\n%s\r\n", r.ID, r.Kind, proto, extra)
 				if sc.Send([]byte(req), nil) != nil {
 					return
 				}
@@ -176,8 +196,11 @@ func c16Run(e *Env, p *c16Plan) {
 					return
 				}
 				outs[ci] = append(outs[ci], out{r.ID, resp})
-				if resp.Close {
-					return
+				if resp.Close || r.Conn == "http10" {
+					if r.Hijack {
+						return
+					}
+					reconnect = true
 				}
 			}
 		})
